@@ -1,0 +1,42 @@
+//go:build verif
+
+package unicodedata
+
+import "unicode"
+
+// Verification hooks (property C20): read-only access to the unexported tables and helpers.
+// Add-only file; compiled only with -tags verif.
+
+// VerifC20Categories returns the general category tables in the order LookupType scans them
+// (the order is the iteration order of a map at init time, hence arbitrary).
+func VerifC20Categories() []*unicode.RangeTable { return categories }
+
+// VerifC20CombiningClasses returns the 256 combining class tables (nil entries included).
+func VerifC20CombiningClasses() []*unicode.RangeTable { return combiningClasses[:] }
+
+// VerifC20LineBreaks returns the line break classes in lookup order.
+func VerifC20LineBreaks() []*unicode.RangeTable { return lineBreaks[:] }
+
+// VerifC20GraphemeBreaks returns the grapheme break classes in lookup order and the prefilter table.
+func VerifC20GraphemeBreaks() ([]*unicode.RangeTable, *unicode.RangeTable) {
+	return graphemeBreaks[:], graphemeBreakAll
+}
+
+// VerifC20WordBreaks returns the word break classes in lookup order and the prefilter table.
+func VerifC20WordBreaks() ([]*unicode.RangeTable, *unicode.RangeTable) {
+	return wordBreaks[:], wordBreakAll
+}
+
+// VerifC20Mirroring returns the mirroring map.
+func VerifC20Mirroring() map[rune]rune { return mirroring }
+
+// VerifC20Decompositions returns the three canonical (de)composition maps.
+func VerifC20Decompositions() (map[rune]rune, map[rune][2]rune, map[[2]rune]rune) {
+	return decompose1, decompose2, compose
+}
+
+// VerifC20DecomposeHangul is decomposeHangul.
+func VerifC20DecomposeHangul(ab rune) (a, b rune, ok bool) { return decomposeHangul(ab) }
+
+// VerifC20ComposeHangul is composeHangul.
+func VerifC20ComposeHangul(a, b rune) (rune, bool) { return composeHangul(a, b) }
